@@ -41,6 +41,9 @@ pub struct Core {
     pub pending_now: bool,
     pub keep_data: bool,
     pub wdata: Vec<Vec<u8>>, // data of each Write event, in order (when keep_data)
+    /// when non-zero: writes longer than this, and writes beyond the dense 2 GiB region, are logged
+    /// (position and length) but their bytes are not stored (wdata gets an empty marker)
+    pub sparse_over: usize,
 }
 
 impl Core {
@@ -86,6 +89,14 @@ impl Core {
             return Ok(0);
         }
         let start = usize::try_from(self.pos).map_err(|_| io::Error::new(io::ErrorKind::InvalidInput, "pos"))?;
+        if self.sparse_over > 0 && (n > self.sparse_over || start > (1 << 31)) {
+            self.log.push(Ev::Write { pos: self.pos, len: n });
+            if self.keep_data {
+                self.wdata.push(Vec::new());
+            }
+            self.pos += n as u64;
+            return Ok(n);
+        }
         if start > (1 << 31) {
             return Err(io::Error::new(io::ErrorKind::InvalidInput, "write position beyond the harness limit"));
         }
